@@ -65,6 +65,29 @@ def scenarios(w):
         table=lambda: m.Unit._known,
         after=lambda: m.Prefix(10, 5) * Meter,
     )
+    def clash():
+        # a definition that is rejected (the symbol is taken) while another thread evaluates the
+        # same unit: whatever the failing thread cleans up must not take the unit away
+        try:
+            m.Unit(m.Prefix(10, 7), {Meter: 1}, L, name="verif clash", symbol="m")
+        except ValueError:
+            return None
+        return "no error"
+
+    S["S10_rejected_definition"] = dict(
+        bodies=[clash, lambda: m.Prefix(10, 7) * Meter],
+        table=lambda: m.Unit._known,
+        after=lambda: m.Prefix(10, 7) * Meter,
+        ignore_none=True,
+    )
+    # two DIFFERENT first-time dimensions: a registry that is copied, modified and published
+    # loses the other thread's entry
+    S["S11_two_dimensions"] = dict(
+        bodies=[lambda: L**11, lambda: m.Time**13],
+        table=lambda: m.Dimension._known,
+        after=lambda: L**11,
+        each_after=[lambda: L**11, lambda: m.Time**13],
+    )
     return S
 
 
@@ -103,6 +126,19 @@ def make_check(w, sc):
             t, e = sorted(x.errors.items())[0]
             return "raised", ("thread_raised", f"thread {t} raised {type(e).__name__}: {e}")
         objs = [x.results[i] for i in sorted(x.results)]
+        if "each_after" in sc:
+            # every thread built its own value: each must be what a later evaluation returns,
+            # and be interned exactly once
+            for i, (o, again) in enumerate(zip(objs, sc["each_after"])):
+                if again() is not o:
+                    return "later_differs", ("later_evaluation_differs", f"thread {i}'s object is not what a later evaluation of the same expression returns")
+                if sum(1 for v in flat(sc["table"]()) if v is o) != 1:
+                    return "table", ("intern_table_entry_count", f"thread {i}'s object is not interned exactly once")
+            return "ok", None
+        if sc.get("ignore_none"):
+            if any(o == "no error" for o in objs):
+                return "ok", None  # the definition was accepted on this tree: nothing to roll back
+            objs = [o for o in objs if o is not None]
         first = objs[0]
         if any(o is not first for o in objs):
             return "different_objects", (
